@@ -79,6 +79,15 @@ func main() {
 		}
 		tw, _ := strconv.Atoi(os.Args[2])
 		rules.DumpPaths(rules.NewRun(pp, "quick"), tw, os.Args[3])
+	case "ctor":
+		p, err := core.Load(core.LoadOpts{Dir: repoDir()})
+		if err != nil {
+			fmt.Println(err)
+			os.Exit(2)
+		}
+		for tw := 0; tw < 2; tw++ {
+			rules.DumpCtor(rules.NewRun(p, "quick"), tw)
+		}
 	case "obs":
 		// development aid: print every obligation of one property on the tree
 		if len(os.Args) < 3 {
